@@ -695,7 +695,7 @@ func (e *Exec) evalQuant(env *Env, q string, fl *ast.FuncLit) (Val, error) {
 		return Val{}, err
 	}
 	qt := fmt.Sprintf("(%s (%s) %s)", q, strings.Join(decls, " "), body)
-	if len(syms) == 1 && sorts[0] == "Int" && e.inQuant == 0 {
+	if len(syms) == 1 && e.inQuant == 0 && (sorts[0] == "Int" || strings.Contains(body, "(forall ") || strings.Contains(body, "(exists ")) && sorts[0] != "Bool" {
 		// name the quantified formula and register it for index instantiation
 		qs := e.define("Q", "Bool", qt)
 		sym := syms[0]
@@ -725,7 +725,7 @@ func (e *Exec) evalQuant(env *Env, q string, fl *ast.FuncLit) (Val, error) {
 				return r
 			}
 		}
-		e.registerIntQuant(qs, inst, q == "forall", nested)
+		e.registerQuant(qs, inst, q == "forall", nested, sorts[0])
 		return Val{T: tBool, Term: qs}, nil
 	}
 	return Val{T: tBool, Term: qt}, nil
